@@ -107,7 +107,7 @@ Definition run_on (sys : list tdef) (init : res (unit * VisionsTypeset Z data st
   match init with
   | Raise e => ORaise (100 + exn_code e)
   | Ok (_, ts, _) =>
-      let fuel := S (S (length sys)) in
+      let fuel := (200 + length sys)%nat in   (* acyclic systems need <= |sys|; cyclical ones may revisit types *)
       match (if Z.eqb mode 0 then VT_detect X fuel ts d else VT_infer X fuel ts d) with
       | Raise e => ORaise (exn_code e)
       | Ok ((dd, p, st), _) => OOk (snd dd) p st
